@@ -25,11 +25,14 @@ PARTIAL = {'runtime': "power loss, network file systems and partial HDF5 pages b
 
 SCEN_QUICK = [{'kind': 'raw', 'n': 5, 'bs': 2, 'shuffle': 0},
               {'kind': 'harvester', 'n': 5, 'bs': 2, 'engine': 'joblib', 'shuffle': 3},
-              {'kind': 'sampler', 'n': 4, 'bs': 2, 'engine': 'pickle', 'shuffle': 0}]
+              {'kind': 'sampler', 'n': 4, 'bs': 2, 'engine': 'pickle', 'shuffle': 0},
+              # the very first save of a harvester (no data file yet)
+              {'kind': 'harvester', 'n': 4, 'bs': 2, 'engine': 'joblib', 'shuffle': 0, 'init': False}]
 SCEN_THOROUGH = SCEN_QUICK + [{'kind': 'harvester', 'n': 5, 'bs': 2, 'engine': 'h5netcdf', 'shuffle': 0},
                               {'kind': 'runner', 'n': 6, 'bs': 4, 'shuffle': 5},
                               {'kind': 'raw', 'n': 7, 'bs': 3, 'shuffle': 2},
-                              {'kind': 'sampler', 'n': 5, 'bs': 5, 'engine': 'csv', 'shuffle': 0}]
+                              {'kind': 'sampler', 'n': 5, 'bs': 5, 'engine': 'csv', 'shuffle': 0},
+                              {'kind': 'harvester', 'n': 4, 'bs': 2, 'engine': 'h5netcdf', 'shuffle': 0, 'init': False}]
 
 
 def nontrivial(c): return True
@@ -39,7 +42,7 @@ def _traced_run(sc):
     base = tempfile.mkdtemp(prefix='xvc', dir=common.scratch_root())
     root = os.path.join(base, 'w'); os.makedirs(root)
     try:
-        if sc['kind'] in ('harvester', 'sampler'): crashlab.child(root, 'setup', sc)
+        if sc['kind'] in ('harvester', 'sampler') and sc.get('init', True): crashlab.child(root, 'setup', sc)
         log = os.path.join(base, 'log.txt')
         rc, res, err = crashlab.child(root, 'run', sc, log=log)
         return rc, res, crashlab.read_log(log, root), err
@@ -62,7 +65,7 @@ def cases(ctx):
             for k in range(1, len(ev) + 1, 5):
                 for k2 in (3, 9, 17):
                     out.append({'sc': sc, 'k': k, 'k2': k2})
-        ctx.count('scenario', sc['kind'] + '/' + sc.get('engine', '-'))
+        ctx.count('scenario', sc['kind'] + '/' + sc.get('engine', '-') + ('' if sc.get('init', True) else '/first-save'))
     return out
 
 
@@ -100,7 +103,7 @@ def _one(c):
     root = os.path.join(base, 'w'); os.makedirs(root)
     try:
         init = None
-        if sc['kind'] in ('harvester', 'sampler'):
+        if sc['kind'] in ('harvester', 'sampler') and sc.get('init', True):
             init = crashlab.child(root, 'setup', sc)[1]
         log = os.path.join(base, 'log.txt')
         rc, res, err = crashlab.child(root, 'run', sc, crash_at=c['k'], log=log)
@@ -179,7 +182,8 @@ def oracle(c, obs):
     if sc['kind'] == 'sampler' and res.get('rows') != sorted([float(a), x] for a, x in zip(vals, new)): return f'recovery returned {res}'
     st = rec.get('store')
     if sc['kind'] == 'harvester':
-        want_a = [float(v) for v in vals] + [101.0, 102.0]; want_x = new + [101.5, 102.5]
+        want_a = [float(v) for v in vals] + ([101.0, 102.0] if sc.get('init', True) else [])
+        want_x = new + ([101.5, 102.5] if sc.get('init', True) else [])
         if not st or st.get('a') != want_a or st.get('x') != want_x:
             return f'after a kill before operation {c["k"]} and recovery the harvester file holds {st}, expected the earlier data and the new results'
     if sc['kind'] == 'sampler':
